@@ -54,6 +54,9 @@ const REGEX_ATTR: &str = "regex";
 pub fn generate(input: TokenStream) -> TokenStream {
     debug!("Reading input token streams");
 
+    #[cfg(feature = "verif_hooks")]
+    verif::reset_compiles();
+
     let mut item: ItemEnum = syn::parse2(input).expect("Logos can only be derived for enums");
     let item_span = item.span();
 
